@@ -1,4 +1,5 @@
 import CircusProofs.Core.Init
+import CircusProofs.Core.PidInv
 /-!
 # C19 — watchers start in priority order, paced by the warmup delays
 
@@ -475,8 +476,15 @@ theorem C19h.callHook_kernel (u : Nat) (h : String) (s : State) : (callHook u h 
       simp only [pure]
       rw [C19h.notify_kernel]; rfl
 
-theorem C19h.spawnTry_started_now (rec : Rec) (u n : Nat) (s : State) (t : Nat)
-    (h : (spawnTry rec u n s).1 = .started t) : t = (spawnTry rec u n s).2.k.now := by
+/-- `spawnAdopt` writes the kernel only through `Popen()` -/
+theorem C19h.spawnAdopt_kernel (u wid : Nat) (s : State) : (spawnAdopt u wid s).2.k = (s.k.spawn).1 := by
+  unfold spawnAdopt
+  simp only
+  cases s.k.spawn with
+  | mk k' r => cases r <;> rfl
+
+theorem C19h.spawnTry_started_le (rec : Rec) (u n : Nat) (s : State) (t : Nat)
+    (h : (spawnTry rec u n s).1 = .started t) : s.k.now ≤ t ∧ t ≤ (spawnTry rec u n s).2.k.now := by
   induction n generalizing s with
   | zero => simp [spawnTry, pure] at h
   | succ n ih =>
@@ -488,13 +496,18 @@ theorem C19h.spawnTry_started_now (rec : Rec) (u n : Nat) (s : State) (t : Nat)
       simp [pure] at h
     | some wid =>
       simp only [hw] at h ⊢
-      generalize spawnAdopt u wid (usedWids u (getW u s).snd).snd = r at h ⊢
+      have hk : (spawnAdopt u wid (nowMs (usedWids u (getW u s).snd).snd).snd).2.k.now ≥ s.k.now := by
+        rw [C19h.spawnAdopt_kernel]; exact spawn_now_le s.k
+      have hn : (nowMs (usedWids u (getW u s).snd).snd).fst = s.k.now := rfl
+      generalize spawnAdopt u wid (nowMs (usedWids u (getW u s).snd).snd).snd = r at h hk ⊢
       obtain ⟨p, s1⟩ := r
       cases p with
-      | none => exact ih s1 h
+      | none =>
+        obtain ⟨h1, h2⟩ := ih s1 h
+        exact ⟨Nat.le_trans hk h1, h2⟩
       | some pid =>
-        simp only at h ⊢
-        by_cases hr : (!(callHook u "after_spawn" (nowMs s1).snd).fst) = true
+        simp only at h hk ⊢
+        by_cases hr : (!(callHook u "after_spawn" s1).fst) = true
         · erw [if_pos hr] at h
           simp [pure] at h
         · erw [if_neg hr] at h
@@ -502,13 +515,21 @@ theorem C19h.spawnTry_started_now (rec : Rec) (u n : Nat) (s : State) (t : Nat)
           simp only [pure] at h ⊢
           rw [C19h.notify_kernel, C19h.callHook_kernel]
           injection h with h
-          exact h.symm
+          rw [hn] at h
+          subst h
+          exact ⟨Nat.le_refl _, hk⟩
 
-/-- **the start time `spawn_process` reports is the current (virtual) time**: in the model no time
-    passes between the `Popen` and the pacing computation, so the hypothesis `t ≤ now` of
-    `C19_spawn_pacing` always holds and the sleep is the full `warmup_delay`. -/
+/-- **the start time `spawn_process` reports is no later than the current (virtual) time** (and no
+    earlier than the time at which `spawn_process` was entered): `process.started` is read before
+    the fork, and inside `spawn_process` the kernel clock only moves forward (a kernel-call boundary
+    keeps it, a successful `Popen()` adds the time the fork/exec took, hooks and `notify` do not
+    touch the kernel), so the hypothesis `t ≤ now` of `C19_spawn_pacing` always holds.
+
+    (Restated: before the model charged time for the fork this read `t = now`; with
+    `Behav.spawnMs > 0` that is no longer true — the clock may be later than `started`.) -/
 theorem C19_spawn_started_now (rec : Rec) (u : Nat) (s : State) (t : Nat)
-    (h : (spawnProcess rec u s).1 = .started t) : t = (spawnProcess rec u s).2.k.now := by
+    (h : (spawnProcess rec u s).1 = .started t) :
+    s.k.now ≤ t ∧ t ≤ (spawnProcess rec u s).2.k.now := by
   unfold spawnProcess at h ⊢
   simp only [bind] at h ⊢
   by_cases hst : (getW u s).1.status = Status.stopped
@@ -521,22 +542,64 @@ theorem C19_spawn_started_now (rec : Rec) (u : Nat) (s : State) (t : Nat)
       simp [pure] at h
     · erw [if_neg hr] at h
       erw [if_neg hr]
-      exact C19h.spawnTry_started_now _ _ _ _ _ h
+      have h0 := C19h.spawnTry_started_le _ _ _ _ _ h
+      rw [C19h.callHook_kernel] at h0
+      exact h0
 
-/-- the pacing theorem without side condition: the timer after a spawn at `t` is due exactly at
-    `t + warmup_delay` -/
+/-- the pacing theorem when the spawn took no longer than the warmup delay (`now - t ≤
+    warmup_delay`, in particular whenever the fork takes no time): the timer after a spawn at `t` is
+    due exactly at `t + warmup_delay`.
+
+    (Restated: the hypothesis `hfast` is new; since the model charges `Behav.spawnMs` for the fork,
+    a spawn slower than the warmup delay is possible — see `C19_spawn_pacing_slow_spawn`.) -/
 theorem C19_spawn_pacing_exact (rec : Rec) (u rem : Nat) (wt : Waiter) (s : State) (t : Nat)
-    (hres : (spawnProcess rec u s).1 = .started t) :
+    (hres : (spawnProcess rec u s).1 = .started t)
+    (hfast : (spawnProcess rec u s).2.k.now - t ≤ (getW u (spawnProcess rec u s).2).1.warmup) :
     let s1 := (spawnProcess rec u s).2
     (spawnLoop rec u (rem + 1) wt s).2.sleepers = s1.sleepers ++
       [{ sid := s1.nextId + 1, deadline := t + (getW u s1).1.warmup, waiter := .frame s1.nextId 0 }] := by
   intro s1
-  have ht := C19_spawn_started_now rec u s t hres
+  have ht := (C19_spawn_started_now rec u s t hres).2
   rw [(C19_spawn_pacing rec u rem wt s t hres).1]
   have : s1.k.now + ((getW u s1).1.warmup - (s1.k.now - t)) = t + (getW u s1).1.warmup := by
-    have : t = s1.k.now := ht
+    have h1 : t ≤ s1.k.now := ht
+    have h2 : s1.k.now - t ≤ (getW u s1).1.warmup := hfast
     omega
   rw [this]
+
+/-- the other case: the spawn took at least as long as the warmup delay (`warmup_delay ≤ now - t`).
+    The pause is 0: the timer is due right now, and now is already no earlier than
+    `t + warmup_delay`.  Together with `C19_spawn_pacing_exact`: in all cases the next spawn is
+    scheduled no earlier than `warmup_delay` after the `started` time of this one. -/
+theorem C19_spawn_pacing_slow_spawn (rec : Rec) (u rem : Nat) (wt : Waiter) (s : State) (t : Nat)
+    (hres : (spawnProcess rec u s).1 = .started t)
+    (hslow : (getW u (spawnProcess rec u s).2).1.warmup ≤ (spawnProcess rec u s).2.k.now - t) :
+    let s1 := (spawnProcess rec u s).2
+    (spawnLoop rec u (rem + 1) wt s).2.sleepers = s1.sleepers ++
+      [{ sid := s1.nextId + 1, deadline := s1.k.now, waiter := .frame s1.nextId 0 }] ∧
+    t + (getW u s1).1.warmup ≤ s1.k.now := by
+  intro s1
+  have ht : t ≤ s1.k.now := (C19_spawn_started_now rec u s t hres).2
+  have h2 : (getW u s1).1.warmup ≤ s1.k.now - t := hslow
+  rw [(C19_spawn_pacing rec u rem wt s t hres).1]
+  have : s1.k.now + ((getW u s1).1.warmup - (s1.k.now - t)) = s1.k.now := by omega
+  rw [this]
+  exact ⟨rfl, by omega⟩
+
+/-- **consecutive spawns of one watcher are at least `warmup_delay` apart, unconditionally**: the
+    single timer on which the loop parks after a spawn reported at `t` is due no earlier than
+    `t + warmup_delay`, however long the fork took. -/
+theorem C19_spawn_pacing_all_cases (rec : Rec) (u rem : Nat) (wt : Waiter) (s : State) (t : Nat)
+    (hres : (spawnProcess rec u s).1 = .started t) :
+    let s1 := (spawnProcess rec u s).2
+    ∃ d, (spawnLoop rec u (rem + 1) wt s).2.sleepers = s1.sleepers ++
+        [{ sid := s1.nextId + 1, deadline := d, waiter := .frame s1.nextId 0 }] ∧
+      t + (getW u s1).1.warmup ≤ d ∧ s1.k.now ≤ d := by
+  intro s1
+  have ht : t ≤ s1.k.now := (C19_spawn_started_now rec u s t hres).2
+  refine ⟨_, (C19_spawn_pacing rec u rem wt s t hres).1, ?_, ?_⟩
+  · exact (C19h.warmup_arith t s1.k.now (getW u s1).1.warmup ht).1
+  · exact Nat.le_add_right _ _
 
 /-- `spawn_process` on a watcher that has meanwhile been stopped returns True without spawning
     (`C02_stopped_no_spawn`); `spawn_processes` then still sleeps the full warmup delay -/
@@ -595,6 +658,10 @@ def c19s0 : State := initState c19cfg [] 500
 /-- … and with watcher 1 in status `starting` (inside its `_start`) -/
 def c19s1 : State := (setStatus 1 .starting c19s0).2
 def c19props : JVal := .obj [("name", .str "*")]
+/-- the same with a kernel whose fork takes 100 ms (less than watcher 1's warmup delay of 300 ms) … -/
+def c19fast : State := (setStatus 1 .starting (initState c19cfg [{ spawnMs := 100 }] 500)).2
+/-- … and 400 ms (more than the warmup delay) -/
+def c19slow : State := (setStatus 1 .starting (initState c19cfg [{ spawnMs := 400 }] 500)).2
 
 @[instance_reducible] def C19h.decR (a b : Except Exc (List Nat)) : Decidable (a = b) :=
   match a, b with
@@ -619,7 +686,19 @@ example := C19_start_cmd_several "restart" c19props c19s0 2 1 [3] (by decide +ke
 example : (getW 1 c19s0).1.status = .stopped ∧ (callHook 1 "before_start" c19s0).1 = true := by decide +kernel
 -- hypotheses of C19_spawn_pacing / C19_spawn_pacing_exact / C19_spawn_started_now: a spawn that succeeds at t = 0
 example : (spawnProcess (exec 10) 1 c19s1).1 = .started 0 := by rfl
-example := C19_spawn_pacing_exact (exec 10) 1 1 .none c19s1 0 (by rfl)
+example := C19_spawn_pacing_exact (exec 10) 1 1 .none c19s1 0 (by rfl) (by decide +kernel)
+-- a fork that takes 100 ms (< warmup 300): started 0, clock 100, the timer is due at 0 + 300
+example : (spawnProcess (exec 10) 1 c19fast).1 = .started 0 ∧ (spawnProcess (exec 10) 1 c19fast).2.k.now = 100 ∧
+    ((spawnLoop (exec 10) 1 2 .none c19fast).2.sleepers.map (·.deadline)) = [300] :=
+  ⟨by rfl, by decide +kernel, by decide +kernel⟩
+example := C19_spawn_pacing_exact (exec 10) 1 1 .none c19fast 0 (by rfl) (by decide +kernel)
+-- hypotheses of C19_spawn_pacing_slow_spawn: a fork that takes 400 ms (> warmup 300): started 0, clock
+-- 400, the pause is 0 — the timer is due at 400 ≥ 0 + 300
+example : (spawnProcess (exec 10) 1 c19slow).1 = .started 0 ∧ (spawnProcess (exec 10) 1 c19slow).2.k.now = 400 ∧
+    ((spawnLoop (exec 10) 1 2 .none c19slow).2.sleepers.map (·.deadline)) = [400] :=
+  ⟨by rfl, by decide +kernel, by decide +kernel⟩
+example := C19_spawn_pacing_slow_spawn (exec 10) 1 1 .none c19slow 0 (by rfl) (by decide +kernel)
+example := C19_spawn_pacing_all_cases (exec 10) 1 1 .none c19slow 0 (by rfl)
 -- hypothesis of C19_spawn_pacing_stopped: the watcher has been stopped in the meantime
 example : (spawnProcess (exec 10) 1 c19s0).1 = .rTrue := by rfl
 -- the arithmetic: spawn at 1000, now 1100, warmup 300 → due at 1300; warmup 50 → due now (1100 ≥ 1050)
